@@ -2,7 +2,7 @@
 # verify_seed.sh <ID> <variant> <crate-dir> <cargo-package> <test-name>
 # in the scratch worktree /tmp/mut-<ID>: patch applies, 610 tests pass with it, demo fails with it and passes without
 ID=$1; V=$2; DIR=$3; PKG=$4; T=$5
-W=/tmp/mut-$ID; cd $W || exit 9
+W=${SEED_ROOT:-/tmp/mut}-$ID; cd $W || exit 9
 export CARGO_TARGET_DIR=$W/target CARGO_NET_OFFLINE=true
 git checkout -q -- . ; rm -rf $DIR/tests/${T}.rs
 git apply OUT/$V/patch.diff || { echo "APPLY FAILED"; exit 9; }
